@@ -9,6 +9,7 @@ import (
 	"io"
 	"mime"
 	"mime/multipart"
+	"net/mail"
 	"net/textproto"
 	"sort"
 	"strings"
@@ -41,7 +42,11 @@ func c18Gen(t *rapid.T) qScenario {
 	}
 	m := qMsg{ID: "m0", From: "sender@example.com", OriginalFrom: "sender@example.com", Body: "hello\r\n"}
 	m.Header = ev.QS(rapid.SampledFrom(c18Headers).Draw(t, "header"))
-	switch rapid.IntRange(0, 7).Draw(t, "sender") {
+	switch rapid.IntRange(0, 9).Draw(t, "sender") {
+	case 8:
+		// a local part that needs quoting in a header (go-smtp hands the envelope address over without the quotes)
+		f := rapid.SampledFrom([]string{"john doe@example.com", "doe,john@example.com", "a\"b@example.com", "x(y)@example.com"}).Draw(t, "quoted_sender")
+		m.From, m.OriginalFrom = f, f
 	case 0:
 		m.From, m.OriginalFrom = "", ""
 	case 1:
@@ -340,8 +345,14 @@ func c18Run(sc qScenario) (vs []ev.V) {
 				vs = append(vs, ev.Vf("report:original-header-differs", "%s: original header\n%q\nreported as\n%q", where, m.Header, p.Original))
 			}
 		}
-		if !strings.Contains(p.To, m.OriginalFrom) && !bytes.Contains([]byte(p.To), []byte("xn--")) {
+		if !strings.Contains(p.To, m.OriginalFrom) && !bytes.Contains([]byte(p.To), []byte("xn--")) && !strings.ContainsAny(m.OriginalFrom, " ,\"()") {
 			vs = append(vs, ev.Vf("report:to-header", "%s: To header %q, the sender is %q", where, p.To, m.OriginalFrom))
+		}
+		// well-formed: the To field is one address, the sender's
+		if list, err := mail.ParseAddressList(p.To); err != nil || len(list) != 1 {
+			vs = append(vs, ev.Vf("report:to-header-malformed", "%s: To header %q does not parse as one address (%v, %d addresses); the sender is %q", where, p.To, err, len(list), m.OriginalFrom))
+		} else if got := list[0].Address; got != m.OriginalFrom && !strings.Contains(got, "xn--") {
+			vs = append(vs, ev.Vf("report:to-header", "%s: To header %q names %q, the sender is %q", where, p.To, got, m.OriginalFrom))
 		}
 	}
 	return vs
